@@ -21,33 +21,43 @@ Proof. exact guarded_no_fault. Qed.
 Print Assumptions c19_guarded_no_fault.
 
 (* ... and the guard is necessary in the model: an unguarded site either dereferences NULL, or (StoredUnchecked) leaves
-   NULL in a field whose readers take it for "not requested" - no crash, the check is silently off *)
+   NULL in a field whose readers take it for "not requested" - no crash, the check is silently off -, or
+   (GuardedButSwallowed) tests for NULL and then carries on with a partially built object without telling its caller *)
 Theorem c19_unguarded_not_clean : forall s, guarded s = false ->
-  (exists k, run_site s None = Fault k) \/ run_site s None = SilentNull.
+  (exists k, run_site s None = Fault k) \/ run_site s None = SilentNull \/ run_site s None = Swallowed.
 Proof. exact unguarded_not_clean. Qed.
 Print Assumptions c19_unguarded_not_clean.
 
 (* hygiene of the table: keys are unique (so `known_open` names exactly one site), the table is not empty,
    and every key listed as open names an existing site that is indeed unguarded (no stale exemptions) *)
 Theorem c19_table_wellformed :
-  nodup_keys nil sites = true /\ length sites = n_sites /\ 200 <= n_sites /\ known_open_are_unguarded_sites = true.
+  nodup_keys nil sites = true /\ length sites = n_sites /\ 200 <= n_sites /\ known_open_are_unguarded_sites = true /\
+  benign_keys_are_swallowed_sites = true.
 Proof. exact table_wellformed. Qed.
 Print Assumptions c19_table_wellformed.
 
-(* the table: every allocation site of the current sources, minus the open known findings, is guarded.
+(* the table: every allocation site of the current sources, minus the open known findings, is guarded - or swallows the
+   failure and is on the hand-reviewed benign list of ResModel.v (3 sites, each with its reason).
    A removed NULL check or a new unchecked allocation changes Gen/AllocSites.v and breaks this proof. *)
-Theorem c19_sites_guarded : forallb guarded checked_sites = true.
+Theorem c19_sites_guarded : forallb accepted checked_sites = true.
 Proof. exact sites_guarded. Qed.
 Print Assumptions c19_sites_guarded.
 
 (* consequence for every site of the library outside known_open *)
-Theorem c19_no_site_faults : forall s, In s sites -> known_open s = false -> alloc_failure_clean s.
+Theorem c19_no_site_faults : forall s, In s sites -> known_open s = false ->
+  alloc_failure_clean s \/ alloc_failure_swallowed_benign s.
 Proof. exact no_site_faults. Qed.
 Print Assumptions c19_no_site_faults.
+
+(* a site that swallows an allocation failure and is not on the reviewed benign list is never accepted: a new
+   `if (p != NULL) { fill }  /* carry on */` breaks c19_sites_guarded *)
+Theorem c19_swallowed_needs_review : forall s, s_class s = GuardedButSwallowed -> benign_swallowed s = false -> accepted s = false.
+Proof. exact swallowed_needs_review. Qed.
+Print Assumptions c19_swallowed_needs_review.
 
 (* the exempted sites are real violations of the site spec (no guarded site hides in the exemption list):
    the full statement c19_table_statement fails exactly on them *)
 Theorem c19_known_open_sites_unclean : forall s, In s sites -> known_open s = true ->
-  (exists k, run_site s None = Fault k) \/ run_site s None = SilentNull.
+  (exists k, run_site s None = Fault k) \/ run_site s None = SilentNull \/ run_site s None = Swallowed.
 Proof. exact known_open_sites_unclean. Qed.
 Print Assumptions c19_known_open_sites_unclean.
